@@ -261,9 +261,12 @@ def run(ctx, model=None):
              "pr": rng.choice(EXT), "pl": rng.choice(EXT), "pt": rng.choice(EXT), "plo": rng.choice(EXT + [0.5]),
              "fd": rng.random() < 0.5}
         check_params(ctx, p, model, solve=False)
-    for (l, w) in ([(1, 14), (2, 13), (14, 1), (19, 9), (1, 180)] if ctx.quick() else
-                   [(1, 14), (2, 13), (14, 1), (19, 9), (1, 180), (1, 40), (3, 25), (60, 2), (20, 20), (10, 40)]):
+    # ... up to files above 1 MiB and games above 4096 states
+    for (l, w) in ([(1, 14), (2, 13), (14, 1), (19, 9), (1, 180), (30, 30)] if ctx.quick() else
+                   [(1, 14), (2, 13), (14, 1), (19, 9), (1, 180), (1, 40), (3, 25), (60, 2), (20, 20), (10, 40), (30, 30), (21, 20), (1, 1000), (45, 45)]):
         for fd in (False, True):
+            if ctx.quick() and l * w >= 900 and fd:
+                continue
             p = {"seed": 7, "w": w, "l": l, "m": 6, "pr": 0.1, "pl": 0.1, "pt": 0.1, "plo": 0.3, "fd": fd}
             check_params(ctx, p, model if l * w <= 30 else None, solve=False)
     # manual entry point
